@@ -327,6 +327,7 @@ class ImplRun:
         self.g.add_writer(self.rec.writer)
         self.ctx = []      # open mode context managers
         self.hooks = {}
+        self.hook_cms = {}
         self.calls = []
         self.style = style
 
@@ -464,11 +465,21 @@ class ImplRun:
             h = c[1]
             if h[1] not in self.hooks:
                 self.hooks[h[1]] = make_hook(h, self.calls)
+                if (h[1] + self.style) % 2 == 0:
+                    # the same registration through the context manager: `with g.move_hook(fn):` entered here, left at the
+                    # matching remove_hook
+                    cm = g.move_hook(self.hooks[h[1]])
+                    self.hook_cms[h[1]] = cm
+                    return cm.__enter__()
             return g.add_hook(self.hooks[h[1]])
         if op == "remove_hook":
             if c[1] in self.hooks:
                 # forget the function object: a later add_hook with this id registers the NEW specification, as in the model
-                return g.remove_hook(self.hooks.pop(c[1]))
+                fn = self.hooks.pop(c[1])
+                cm = self.hook_cms.pop(c[1], None)
+                if cm is not None:
+                    return cm.__exit__(None, None, None)
+                return g.remove_hook(fn)
             return None
         raise ValueError(c)
 
